@@ -10,8 +10,10 @@ OWNERS = {
     "C03": {"MetadataEncodesRange", "NewRootFollowsFromExits", "ExitsAreTheEventsOfTheRange", "ImportedExitsAreTheClaimsOfTheRange"},
     "C09": {"ClaimProofsVerifyAgainstNamedRoot"},
     "C13": {"RestartReconciles", "ReconciledWithAgglayer", "OneCertificatePerHeight", "RecordMatchesSubmitted", "FailedWriteLeavesRecordIntact",
-            "HeightFollowsSettled", "PrevRootFollowsSettled", "FirstBlockFollowsSettledOrRetried", "NoSubmitWhileUndecided"},
+            "HeightFollowsSettled", "PrevRootFollowsSettled", "FirstBlockFollowsSettledOrRetried", "NoSubmitWhileUndecided",
+            "StoredCertificatesSurviveUpgrade"},
 }
+FIXTURE_DB = os.path.join(V.VERIF, "fixtures", "aggsender_v1.sqlite")
 
 
 def decorate(b, rng, claims=True, finality=False, storefaults=False, l2reorgs=False):
@@ -152,8 +154,25 @@ def aggsender_check(prop, model_cfgs, gen_cfgs, quick_n, thorough_n, invs, claim
             if nsub == 0:
                 raise V.Infra("no certificate was ever submitted - driver is dead")
         nimp = sum(x.count('"kind":"mainnet"') + x.count('"kind":"rollup"') for x in lines)
+        # C13, across restarts that are upgrades: the aggsender database written by an earlier run of the repository's code
+        # (fixtures/aggsender_v1.sqlite) is opened by the code under test; every getter must answer what it answered then
+        persist = None
+        if prop == "C13" and rb is None:
+            pf = sc.path("persist.ndjson")
+            V.run_driver(drv, ["-persistcheck", FIXTURE_DB, "-out", pf])
+            pinfo = V.validate_traces("AggSenderTrace.tla", "AggSenderTrace.cfg", pf, sc)
+            if not pinfo["consumed_ok"]:
+                raise V.Infra("monitor did not consume the persistence trace:\n" + pinfo.get("tail", ""))
+            nans = sum(1 for _ in open(pf))
+            if nans < 30:
+                raise V.Infra("persistence check recorded only %d answers" % nans)
+            for v in pinfo["violations"][:3]:
+                res.add_violation("%s (stored aggsender database, start %d): %s" % (v["inv"], v["info"].get("round", 0), json.dumps(v["info"])[:700]),
+                                  dict(fixture=FIXTURE_DB, violation=v))
+            persist = dict(fixture="fixtures/aggsender_v1.sqlite", answers_compared=nans, differing=len(pinfo["violations"]))
         steps = sum(len(b["steps"]) for b in behs)
         res.coverage = dict(
+            stored_database_upgrade=persist,
             states=sum(m["distinct"] for m in mcs), transitions=sum(m["generated"] for m in mcs),
             traces_validated_against_impl=len(behs), samples=[behs[0], behs[len(behs) // 2], behs[-1]], exhaustive=False,
             evaluations=steps, distinct_nontrivial=nsub,
